@@ -581,7 +581,7 @@ func c13R1(c *kit.Ctx, m *ruModel, e *kit.Func, r1 *kit.Rule) {
 	table := []entry{
 		{"number", []string{">", "<", "=", "!="}, c13NumberVals()},
 		{"text", []string{"=", "!=", "contains"}, c13TextVals()},
-		{"onOff", []string{""}, c13OnOffVals()},
+		{"onOff", []string{"*"}, c13OnOffVals()},
 	}
 	for _, en := range table {
 		for _, op := range en.ops {
@@ -591,32 +591,43 @@ func c13R1(c *kit.Ctx, m *ruModel, e *kit.Func, r1 *kit.Rule) {
 				name = "on/off arm"
 				oblig = "for an on/off condition the state equals (point value != 0) == (condition value != 0) under the 4 valuations, whatever the operator"
 			}
-			o := r1.Ob(e, m.armSite(e, en.vt, op), name, oblig)
+			siteOp := op
+			if siteOp == "*" {
+				siteOp = ""
+			}
+			o := r1.Ob(e, m.armSite(e, en.vt, siteOp), name, oblig)
 			okN := 0
-			for _, v := range en.vals {
-				fields := c13BaseFields(en.vt, op)
-				if en.vt == "onOff" {
-					delete(fields, "operator")
-				}
-				init := kit.NewS()
-				for k, x := range v.set {
-					init = init.Set(k, x)
-				}
-				run := &c13CondRun{c: c, m: m, f: e, fields: fields, init: init}
-				run.run()
-				c.AddValuations(1)
-				want := v.want(op)
-				status, msg, _ := run.verdict(want, false)
-				switch status {
-				case "violation":
-					o.Violation("witness: %s condition, operator %q, %s → %s", en.vt, op, v.witness, msg)
-				case "undecided":
-					o.Undecided("%s (%s)", msg, v.witness)
-				default:
-					okN++
+			// the on/off state does not depend on the operator: every operator
+			// the UI can send (and none) is tried
+			ops := []string{op}
+			if op == "*" {
+				ops = []string{"", "on", "off", ">", "<", "=", "!=", "contains"}
+			}
+			total := 0
+			for _, op := range ops {
+				for _, v := range en.vals {
+					total++
+					fields := c13BaseFields(en.vt, op)
+					init := kit.NewS()
+					for k, x := range v.set {
+						init = init.Set(k, x)
+					}
+					run := &c13CondRun{c: c, m: m, f: e, fields: fields, init: init}
+					run.run()
+					c.AddValuations(1)
+					want := v.want(op)
+					status, msg, _ := run.verdict(want, false)
+					switch status {
+					case "violation":
+						o.Violation("witness: %s condition, operator %q, %s → %s", en.vt, op, v.witness, msg)
+					case "undecided":
+						o.Undecided("%s (operator %q, %s)", msg, op, v.witness)
+					default:
+						okN++
+					}
 				}
 			}
-			if okN == len(en.vals) {
+			if okN == total {
 				o.OK("%d valuations agree with the table", okN)
 			}
 		}
